@@ -279,7 +279,9 @@ func (g *G) respDirectives(p *Profile) []directive {
 	if g.chance(p.PNoCache) {
 		if g.chance(0.4) {
 			ds = append(ds, directive{"no-cache", g.pick(`"X-Secret"`, `"X-Secret"`, `"ETag"`, `"ETag, Last-Modified"`, `"Set-Cookie"`,
-				`"age"`, `"X-Secret, Age"`, `"x-httpcache-status, X-From-Cache"`, `"Date, cache-control"`), true})
+				`"age"`, `"X-Secret, Age"`, `"x-httpcache-status, X-From-Cache"`, `"Date, cache-control"`,
+				// several members with optional whitespace around them, any case
+				`"Set-Cookie, X-Secret"`, `"ETag , x-secret"`, `" X-Secret"`, "\"X-SECRET\t,Set-Cookie\"", `"Set-Cookie,X-Secret "`), true})
 		} else {
 			ds = append(ds, directive{"no-cache", "", false})
 		}
@@ -486,7 +488,12 @@ func (g *G) genRep(p *Profile, idx int, approx time.Time, conditional bool) Rep 
 			add("Vary", g.varyValue())
 		}
 	}
-	if g.chance(p.PNoCache) {
+	named := false
+	for _, d := range ds {
+		named = named || (d.name == "no-cache" && strings.Contains(strings.ToLower(d.arg), "x-secret"))
+	}
+	if g.chance(p.PNoCache) || (named && g.chance(0.85)) {
+		// mostly present when a qualified no-cache names it
 		add("X-Secret", fmt.Sprintf("s%d", idx))
 	}
 	if g.chance(p.PConnHdr) {
